@@ -143,6 +143,13 @@ class FGen:
                 for rn, (d, r) in self._dr(t).items():
                     if isinstance(r.value, int):
                         out.append(("attr_other", ["a", ["_model", tn], rn]))
+        if self.cfg.get("ancestor_params"):
+            anc = s.parent
+            while isinstance(anc, rm.RSpace):
+                if anc.formula is not None:
+                    for p, d in anc.formula["params"]:
+                        out.append(("ancestor_param", ["n", p]))
+                anc = anc.parent
         if s.formula is not None and self.cfg.get("param_reads", True):
             for p, d in s.formula["params"]:
                 out.append(("space_param", ["n", p]))
@@ -279,10 +286,14 @@ def gen_space_formula(rng, model, space, cfg):
     params = [["i", None]]
     if rng.random() < 0.35:
         params.append(["j", rng.choice([1, 2])])
+    if cfg.get("ancestor_params") and isinstance(space.parent, rm.RSpace):
+        # nested parametrised spaces get their own parameter names, so that cells below them can read the parameters
+        # of every enclosing ItemSpace
+        params = [[{"i": "a", "j": "b"}[p], d] for p, d in params]
     r = rng.random()
     ret = None
     if r < 0.35:
-        ret = {"refs": {"z": ["bin", "*", ["p", "i"], ["c", rng.choice([10, 100])]]}}
+        ret = {"refs": {"z": ["bin", "*", ["p", params[0][0]], ["c", rng.choice([10, 100])]]}}
     elif r < 0.45 and cfg.get("base_switch", False):
         others = [p for p in (s.path() for s in model.all_spaces()) if p != space.path()
                   and not model.space(p).is_in(space) and not space.is_in(model.space(p))]
@@ -322,6 +333,14 @@ def gen_value(rng, fresh, model, cfg, space=None):
         sps = all_spaces(model)
         if sps:
             t = rng.choice(sps)
+            if space is not None and cfg.get("p_mirror") and rng.random() < cfg["p_mirror"]:
+                # a target in another branch whose path coincides with the holder's again at a deeper level
+                # (A.U -> B.U): relative paths are computed from the common *leading* part only
+                hp = space.path().split(".")
+                mir = [x for x in sps if x is not space and x.path().split(".")[0] != hp[0]
+                       and any(a == b for a, b in zip(x.path().split(".")[1:], hp[1:]))]
+                if mir:
+                    t = rng.choice(mir)
             cs = [n for n, (d, c) in visible_cells(t).items() if d is t or cfg.get("dangling_objrefs")]
             if cs and rng.random() < 0.6:
                 return {"t": "obj", "space": t.path(), "cells": rng.choice(cs)}
